@@ -71,6 +71,39 @@ func c18Embedded(r *core.Report) {
 		})
 		r.Check(bad == "", "embedded:appendFields", p.Pos(fd.Pos()), "no exportedness test before the descent into embedded structs", "appendFields skips unexported fields before it looks whether the field is an embedded struct ("+bad+"): the exported fields of an embedded struct with an unexported type name, which encoding/json writes, are missing from the schema and from the resolution of shared JSON names")
 
+		// the descent into embedded structs ends: the type at hand is compared with the types that led here
+		guarded := false
+		ast.Inspect(fd.Body, func(m ast.Node) bool {
+			rs, ok := m.(*ast.RangeStmt)
+			if !ok || rs.Pos() > self {
+				return true
+			}
+			id, ok := ast.Unparen(rs.X).(*ast.Ident)
+			if !ok || core.ParamObj(info, fd, id.Name) != info.ObjectOf(id) {
+				return true
+			}
+			ast.Inspect(rs.Body, func(k ast.Node) bool {
+				if ifs, ok := k.(*ast.IfStmt); ok {
+					if be, ok := ast.Unparen(ifs.Cond).(*ast.BinaryExpr); ok && be.Op == token.EQL && core.Terminates(info, ifs.Body.List) {
+						guarded = true
+					}
+				}
+				return true
+			})
+			return true
+		})
+		r.Check(guarded, "embedded:appendFields/cycle", p.Pos(fd.Pos()), "the embedding chain is checked before descending", "appendFields descends into embedded structs without comparing the type at hand with the types that led to it: a struct that embeds a pointer to itself (`type S struct{ *S; V int }`, which encoding/json handles) is descended into until the stack overflows")
+		caseTest := ""
+		ast.Inspect(fd.Body, func(m ast.Node) bool {
+			if c, ok := m.(*ast.CallExpr); ok {
+				if f := core.CalleeOf(info, c); f != nil && f.Pkg() != nil && f.Pkg().Path() == "unicode" && (f.Name() == "IsLower" || f.Name() == "IsUpper") {
+					caseTest = p.Pos(c.Pos())
+				}
+			}
+			return true
+		})
+		r.Check(caseTest == "", "embedded:appendFields/exported", p.Pos(fd.Pos()), "exportedness is asked of the field, not guessed from its first letter", "appendFields decides that a field is private by the case of its first rune ("+caseTest+"): `_x` is unexported and starts with no lower-case letter, so it is collected, hides a promoted field of the same JSON name and imposes its type, while encoding/json ignores it")
+
 		nd := p.DeclOf("openapi3gen", "Generator.NewSchemaRefForValue")
 		var loop *ast.RangeStmt
 		ast.Inspect(nd.Body, func(m ast.Node) bool {
